@@ -237,6 +237,7 @@ def kernelPreds (s : DState) (c : KCtx) (x y : Int) : DState := Id.run do
     if !Spec.C09.rangeOK r then s := s.fail "C09" "range" detail
     if !Spec.C09.endpointsOK ss sb x r then s := s.fail "C09" "endpoints" detail
     if !Spec.C09.oneStepOK c.dk.fmt ss sb x r then s := s.fail "C09" "oneStep" detail
+    else if ss && !Spec.C09.oneStepRelOK c.dk.fmt ss sb x r then s := s.fail "C09" "oneStepRelative" detail
     for (px, py) in ((if s.kall.size < 40 then s.kall.toList else []) ++ s.kprev.toList) do
       let pr := fvOfCell c.dk py
       if !Spec.C09.monoOK px x pr r || !Spec.C09.monoOK x px r pr then
